@@ -61,8 +61,25 @@ def _bad(t, emb, a, variant, is_set):
     return ['ok']
 
 
+def loosen(t, emb, a):
+    """BTreeImpl!Loosen: separator a['v'] (1-based child index) of the node at path a['p'] becomes key a['k'], through the
+    node's own __setstate__ (what a tree loaded from an older database can look like)"""
+    if not hasattr(t, '_firstbucket'):
+        return ['ok']               # (a stand-alone leaf has no separators)
+    node = t
+    for idx in a['p']:
+        node = node.__getstate__()[0][0::2][idx - 1]
+    st = node.__getstate__()
+    data = list(st[0])
+    data[2 * a['v'] - 3] = emb.key(a['k'])
+    node.__setstate__((tuple(data),) + tuple(st[1:]))
+    return ['ok']
+
+
 def apply_map(t, emb, a, variant=0):
     op = a['op']
+    if op == 'loosen':
+        return loosen(t, emb, a)
     if op.startswith('bad'):
         return _bad(t, emb, a, variant, False)
     k = emb.key(a['k']) if a['k'] else None
@@ -116,6 +133,8 @@ def apply_map(t, emb, a, variant=0):
 def apply_set(t, emb, a, variant=0):
     """the same model actions on a TreeSet/Set (model values are all 1)"""
     op = a['op']
+    if op == 'loosen':
+        return loosen(t, emb, a)
     if op.startswith('bad'):
         return _bad(t, emb, a, variant, True)
     k = emb.key(a['k']) if a['k'] else None
